@@ -145,7 +145,7 @@ def units(tier, seed):
           us.append(dict(base, progs=[[i, j, False, 2, 'T'] for i, j in cross]
                          + [[2, 2, False, 4, 'Q']]))
   k = seed % len(us)
-  return us[k:] + us[:k]
+  return us[k:] + us[:k] + [dict(side='subtype', progs=[])]
 
 
 def setup_worker():
@@ -205,6 +205,9 @@ class _Ctx:
 
 def run_unit(unit):
   res = core.new_result()
+  if unit['side'] == 'subtype':
+    _tolinen_subtypes(res)
+    return res
   for prog in unit['progs']:
     if unit['side'] == 'tonnx':
       _tonnx_program(res, unit, prog)
@@ -915,3 +918,104 @@ def _tolinen_program(res, unit, prog):
                                        outcome=label))
             sampled = True
     frontier = nxt
+
+
+# ===========================================================================
+# ToLinen with Variable types related by subclassing, under every mutable filter
+
+
+def _tolinen_subtypes(res):
+  """A module holding Variables of a type and of a subclass of it (Param / LoRAParam /
+  a Param subclass, BatchStat): after init and after apply under every subset of collections
+  as `mutable`, each Variable sits in the collection named after ITS OWN type, only the
+  collections selected by `mutable` come back, and their values are those the NNX module
+  computes."""
+  import itertools
+  import jax
+  import jax.numpy as jnp
+  import numpy as np
+  from flax import nnx
+  from flax.nnx import bridge
+
+  class MyParam(nnx.Param):
+    pass
+
+  class Inner(nnx.Module):
+    def __init__(self, rngs=None):
+      self.w = nnx.Param(jnp.asarray([1.0, 2.0]))
+      self.steps = nnx.Param(jnp.zeros(()))
+      self.lo = nnx.LoRAParam(jnp.asarray([3.0, 4.0]))
+      self.mine = MyParam(jnp.asarray([5.0]))
+      self.mean = nnx.BatchStat(jnp.zeros(()))
+
+    def __call__(self, x):
+      self.steps.value = self.steps.value + 1.0
+      self.mean.value = self.mean.value + 2.0
+      self.lo.value = self.lo.value * 2.0
+      self.mine.value = self.mine.value + 10.0
+      return x * self.w.value + self.lo.value.sum() + self.mine.value.sum()
+
+  x = jnp.asarray([1.0, 1.0])
+  model = bridge.to_linen(Inner)
+  res['evals'] += 1
+  variables = model.init(jax.random.key(0), x)
+  type_name = {n: nnx.variable_name_from_type(t) for n, t in
+               dict(w=nnx.Param, steps=nnx.Param, lo=nnx.LoRAParam, mine=MyParam,
+                    mean=nnx.BatchStat).items()}
+  cols = sorted(set(type_name.values()))
+
+  def placement(vs):
+    return {c: sorted(vs[c].keys()) for c in vs if c != 'nnx'}
+  want_place = {c: sorted(n for n, cc in type_name.items() if cc == c) for c in cols}
+  if placement(variables) != want_place:
+    core.violation(res, 'tolinen-subtype-init', 'after init a Variable does not sit in the '
+                   'collection named after its own type', dict(),
+                   observed=placement(variables), expected=want_place)
+  # expected values after one call, from the NNX module itself
+  ref = Inner()
+  y_ref = ref(x)
+  after = dict(w=ref.w.value, steps=ref.steps.value, lo=ref.lo.value, mine=ref.mine.value,
+               mean=ref.mean.value)
+  for r in range(0, len(cols) + 1):
+    for mut in itertools.combinations(cols, r):
+      for form in ((list(mut),) if mut else (False,)) + ((True,) if r == len(cols) else ()):
+        key = f'mutable={form!r}'
+        res['evals'] += 1
+        res['transitions'] += 1
+        try:
+          out = model.apply(variables, x, mutable=form)
+        except Exception as e:  # noqa
+          core.violation(res, f'tolinen-subtype-raises|{key}',
+                         f'{type(e).__name__}: {str(e)[:200]}', dict(mutable=repr(form)))
+          continue
+        y, upd = (out, {}) if form is False else out
+        if not np.array_equal(np.asarray(y), np.asarray(y_ref)):
+          core.violation(res, f'tolinen-subtype-output|{key}', 'output differs from the NNX '
+                         'module', dict(mutable=repr(form)))
+        sel = cols if form is True else list(mut)
+        got_cols = sorted(c for c in upd if c != 'nnx')
+        if got_cols != sorted(sel):
+          core.violation(res, f'tolinen-subtype-collections|{key}',
+                         f'returned collections {got_cols}, selected by mutable: {sorted(sel)}',
+                         dict(mutable=repr(form)))
+          continue
+        for c in sel:
+          if sorted(upd[c].keys()) != want_place[c]:
+            core.violation(res, f'tolinen-subtype-placement|{key}|{c}',
+                           f'collection {c} holds {sorted(upd[c].keys())}, its own type has '
+                           f'{want_place[c]} (a subclass leaked into / out of it)',
+                           dict(mutable=repr(form)))
+            continue
+          for n in want_place[c]:
+            if not np.array_equal(np.asarray(bridge_unbox(upd[c][n])), np.asarray(after[n])):
+              core.violation(res, f'tolinen-subtype-value|{key}|{c}/{n}',
+                             'updated value differs from the NNX module', dict(mutable=repr(form)))
+        core.outcome(res, f'subtype:{len(sel)}-collections')
+        res['nontrivial'].append(core.h(['subtype', repr(form)]))
+  res['states'] += 1
+  res['samples'].append(dict(side='subtype', collections=cols))
+
+
+def bridge_unbox(v):
+  from flax.core import meta
+  return meta.unbox(v)
